@@ -26,14 +26,19 @@ META = dict(
                "per run, connectionLost only (a) after a drop, (b) after the side's own loseConnection, (c) at EOF after everything "
                "the closed peer wrote was consumed) -- real TCP resets are not modelled. Argument values are abstracted to the call id. "
                "Not covered: StartTLS / ProtocolSwitchCommand, requiresAnswer=False commands, callRemote issued re-entrantly from "
-               "inside callbacks, callers that leave errors unhandled (AMP then drops the connection by design). Schedules of the "
+               "inside success callbacks or responders (re-entrant calls from an errback at disconnect ARE driven), callers that leave errors unhandled (AMP then drops the connection by design). Schedules of the "
                "real peers are sampled (sweeps + random + spec-generated), not enumerated.",
     design_ref="2.8 C31",
     rule="case = (write-after-close flag, sequence of driver steps call/deliver/fire/close/drop/notify); distinct = hash of "
          "(cfg, events); non-trivial = at least two different step kinds",
 )
 
-KINDS = ["NowOk", "NowDecl", "NowUndecl", "LaterOk", "LaterDecl", "LaterUndecl", "Never"]
+OUTCOMES = ["Ok", "Decl", "DeclSub", "Fatal", "FatalSub", "Undecl"]
+KINDS = [t + o for t in ("Now", "Later") for o in OUTCOMES] + ["Never"]
+
+
+def outcome_of(kind):
+    return "None" if kind == "Never" else kind[3:] if kind.startswith("Now") else kind[5:]
 
 _CACHE = {}
 
@@ -48,10 +53,26 @@ def _classes():
     class DeclErr(Exception):
         pass
 
+    class SubDeclErr(DeclErr):          # a strict subclass of a declared error: still the declared error for the caller
+        pass
+
+    class FatalErr(Exception):
+        pass
+
+    class SubFatalErr(FatalErr):
+        pass
+
     class Cmd(amp.Command):
         arguments = [(b"n", amp.Integer()), (b"k", amp.String())]
         response = [(b"r", amp.Integer())]
         errors = {DeclErr: b"DECL"}
+        fatalErrors = {FatalErr: b"FATAL"}
+
+    def outcome(o, n):
+        """what a responder of outcome o produces for call n: a result dict or an exception instance"""
+        if o == "Ok":
+            return {"r": n}
+        return {"Decl": DeclErr, "DeclSub": SubDeclErr, "Fatal": FatalErr, "FatalSub": SubFatalErr}.get(o, RuntimeError)(str(n))
 
     class Peer(amp.AMP):
         h = None
@@ -60,12 +81,11 @@ def _classes():
         def cmd(self, n, k):
             k = k.decode("ascii")
             self.h.obs.append(["resp", n, k, self.pid])
-            if k == "NowOk":
-                return {"r": n}
-            if k == "NowDecl":
-                raise DeclErr(str(n))
-            if k == "NowUndecl":
-                raise RuntimeError("undeclared")
+            if k.startswith("Now"):
+                r = outcome(outcome_of(k), n)
+                if isinstance(r, Exception):
+                    raise r
+                return r
             d = defer.Deferred()
             self.h.later[n] = d
             return d
@@ -79,7 +99,7 @@ def _classes():
         globalLogBeginner.beginLoggingTo([lambda event: None], redirectStandardIO=False, discardBuffer=True)
     except Exception:
         pass
-    _CACHE.update(DeclErr=DeclErr, Cmd=Cmd, Peer=Peer)
+    _CACHE.update(DeclErr=DeclErr, FatalErr=FatalErr, Cmd=Cmd, Peer=Peer, outcome=outcome)
     return _CACHE
 
 
@@ -191,7 +211,7 @@ class Harness:
         except BaseException as e:      # not an action of the spec
             self.obs.append(["exc", who, type(e).__name__, 0])
 
-    def call(self, p, kind):
+    def call(self, p, kind, flag=False):
         K = self.K
         self.ncall += 1
         c = self.ncall
@@ -203,11 +223,13 @@ class Harness:
 
         def err(f):
             from twisted.internet import error
-            if f.check(K["DeclErr"]):
+            if f.check(K["DeclErr"], K["FatalErr"]):
                 s = str(f.value)
-                self.obs.append(["fire", c, "DeclErr", int(s) if s.isdigit() and len(s) < 9 else -1])
+                self.obs.append(["fire", c, f.type.__name__, int(s) if s.isdigit() and len(s) < 9 else -1])
             elif f.check(error.ConnectionDone, error.ConnectionLost):
                 self.obs.append(["fire", c, f.type.__name__, getattr(f.value, "marker", 0)])
+                if flag:                # application code that retries from its errback: a re-entrant callRemote
+                    self.call(p, "NowOk", False)
             else:
                 self.obs.append(["fire", c, f.type.__name__, 0])
 
@@ -231,13 +253,11 @@ class Harness:
         K = self.K
         from twisted.python.failure import Failure
         d = self.later.pop(c)
-        kind = self.kinds[c - 1]
-        if kind == "LaterOk":
-            self._guard(0, lambda: d.callback({"r": c}))
-        elif kind == "LaterDecl":
-            self._guard(0, lambda: d.errback(Failure(K["DeclErr"](str(c)))))
+        r = K["outcome"](outcome_of(self.kinds[c - 1]), c)
+        if isinstance(r, Exception):
+            self._guard(0, lambda: d.errback(Failure(r)))
         else:
-            self._guard(0, lambda: d.errback(Failure(RuntimeError("undeclared"))))
+            self._guard(0, lambda: d.callback(r))
 
     def close(self, p):
         self._guard(p, lambda: self.peer[p].transport.loseConnection())
@@ -281,9 +301,10 @@ def run_rpc(cfg, ops):
         h.obs = []
         k = op[0]
         if k == "call":
-            h.call(op[1], op[2])
-            ev.append({"e": "call", "p": op[1], "k": op[2], "obs": h.obs})
-            rops.append(["call", op[1], op[2]])
+            flag = bool(op[3]) if len(op) > 3 else False
+            h.call(op[1], op[2], flag)
+            ev.append({"e": "call", "p": op[1], "k": op[2], "f": flag, "obs": h.obs})
+            rops.append(["call", op[1], op[2], flag])
         elif k in ("deliver", "deliver_box", "deliver_units"):
             p = op[1]
             if not h.can_deliver(p):
@@ -335,7 +356,7 @@ def run_sweep(cfg, calls, seed_rng, cut, order, late_calls, fault="drop"):
     """Drive step by step (the schedule depends on what is in the pipes)."""
     import random
     rng = random.Random(seed_rng)
-    h_ops = [("call", p, k) for p, k in calls]
+    h_ops = [("call",) + tuple(c) for c in calls]          # c = (p, kind) or (p, kind, re-entrant flag)
     # first pass: dry-run on a harness to resolve fragment sizes deterministically, recording resolved ops
     h = Harness(cfg)
     ops = []
@@ -345,7 +366,7 @@ def run_sweep(cfg, calls, seed_rng, cut, order, late_calls, fault="drop"):
 
     for op in h_ops:
         h.obs = []
-        h.call(op[1], op[2])
+        h.call(op[1], op[2], bool(op[3]) if len(op) > 3 else False)
         do(op)
     delivered = 0
     guard = 0
@@ -380,8 +401,8 @@ def run_sweep(cfg, calls, seed_rng, cut, order, late_calls, fault="drop"):
     # a Later responder fired after the loss, calls after the loss, then the other notification again (no-op if done)
     for c in sorted(h.later):
         do(("fire", c))
-    for p, k in late_calls:
-        do(("call", p, k))
+    for c in late_calls:
+        do(("call",) + tuple(c))
     for p in (1, 2):
         do(("notify", p))
     return ops, reached
@@ -392,9 +413,9 @@ def total_bytes(cfg, calls, seed):
     import random
     rng = random.Random(seed)
     h = Harness(cfg)
-    for p, k in calls:
+    for c in calls:
         h.obs = []
-        h.call(p, k)
+        h.call(c[0], c[1])
     tot = 0
     guard = 0
     while guard < 10000:
@@ -421,7 +442,7 @@ def random_ops(rng, n, maxcalls):
     for _ in range(n):
         r = rng.random()
         if r < 0.22 and ncall < maxcalls:
-            ops.append(("call", rng.choice([1, 2]), rng.choice(KINDS)))
+            ops.append(("call", rng.choice([1, 2]), rng.choice(KINDS), rng.random() < 0.3))
             ncall += 1
         elif r < 0.62:
             p = rng.choice([1, 2])
@@ -443,7 +464,7 @@ def random_ops(rng, n, maxcalls):
         elif r < 0.97:
             ops.append(("notify", rng.choice([1, 2])))
         elif ncall < maxcalls + 2:
-            ops.append(("call", rng.choice([1, 2]), rng.choice(KINDS)))
+            ops.append(("call", rng.choice([1, 2]), rng.choice(KINDS), rng.random() < 0.3))
             ncall += 1
     # drain: make late behaviour visible
     if rng.random() < 0.5:
@@ -459,7 +480,7 @@ def random_ops(rng, n, maxcalls):
             if rng.random() < 0.5:
                 ops.append(("fire", c))
         if rng.random() < 0.7:
-            ops.append(("call", rng.choice([1, 2]), rng.choice(KINDS)))
+            ops.append(("call", rng.choice([1, 2]), rng.choice(KINDS), rng.random() < 0.3))
         for p in order:
             ops.append(("notify", p))
     return ops
@@ -517,13 +538,16 @@ def run(ctx):
     from harness.core import MachineryError
 
     # the full run goes without -coverage (it triples the cost); the vacuity guard runs on a sub-model with coverage on
-    r = ctx.mc("AmpRPCMC", "AmpRPCMC.cfg", coverage=False, label="2 calls, 7 responder kinds, undeclared error may or may not close")
+    r = ctx.mc("AmpRPCMC", "AmpRPCMC.cfg", coverage=False, label="2 calls, 9 responder kinds (one per wire/result class), fatal/undeclared error may or may not close")
     if not r.ok:
         raise MachineryError("AmpRPC spec violates its own invariants: " + r.error)
     if not ctx.quick:
-        r3 = ctx.mc("AmpRPCMC", "AmpRPCMC.thorough.cfg", coverage=False, label="3 calls (<= 2 per peer), 5 responder kinds")
+        r3 = ctx.mc("AmpRPCMC", "AmpRPCMC.thorough.cfg", coverage=False, label="3 calls (<= 2 per peer), 6 responder kinds")
         if not r3.ok:
             raise MachineryError("AmpRPC spec violates its own invariants: " + r3.error)
+    rr = ctx.mc("AmpRPCMC", "AmpRPCMC.re.cfg", coverage=False, label="2 calls whose errbacks may re-enter callRemote at disconnect")
+    if not rr.ok:
+        raise MachineryError("AmpRPC spec violates its own invariants: " + rr.error)
     rc = ctx.mc("AmpRPCMC", "AmpRPCMC.cov.cfg", label="coverage / vacuity guard on a sub-model")
     if not rc.ok:
         raise MachineryError("AmpRPC spec violates its own invariants: " + rc.error)
@@ -533,17 +557,18 @@ def run(ctx):
     rng = ctx.rng
     # (A) disconnect sweeps: for a scenario, one run per byte position at which the network dies
     scen = []
+    fl = lambda: rng.random() < 0.4                     # does the call's errback re-enter callRemote on a loss reason?
     for k in KINDS:
-        scen.append([(1, k)])
+        scen.append([(1, k, fl())])
     pairs = [(a, b) for a in KINDS for b in KINDS]
     rng.shuffle(pairs)
-    for a, b in pairs[:ctx.pick(6, 49)]:
-        scen.append([(1, a), (2, b)])
+    for a, b in pairs[:ctx.pick(8, 80)]:
+        scen.append([(1, a, fl()), (2, b, fl())])
         if not ctx.quick:
-            scen.append([(1, a), (1, b)])
+            scen.append([(1, a, fl()), (1, b, fl())])
     if not ctx.quick:
         for _ in range(30):
-            scen.append([(rng.choice([1, 2]), rng.choice(KINDS)) for _ in range(3)])
+            scen.append([(rng.choice([1, 2]), rng.choice(KINDS), fl()) for _ in range(3)])
     nsweep = 0
     for calls in scen:
         cfg = {"wac": bool(rng.random() < 0.5)}
@@ -552,7 +577,7 @@ def run(ctx):
         step = 1 if (len(calls) == 1 or not ctx.quick) else 3
         for cut in range(0, tot + 1, step):
             order = (1, 2) if (cut % 2 == 0) else (2, 1)
-            late = [(rng.choice([1, 2]), rng.choice(KINDS))]
+            late = [(rng.choice([1, 2]), rng.choice(KINDS), fl())]
             fault = "drop" if rng.random() < 0.8 else ("close", rng.choice([1, 2]))
             ops, reached = run_sweep(cfg, calls, seed, cut, order, late, fault)
             traces.append(run_rpc(cfg, ops))
@@ -571,7 +596,7 @@ def run(ctx):
         ops = []
         for hh in b["hist"]:
             e = hh["e"]
-            ops.append(("call", hh["p"], hh["k"]) if e == "call" else ("deliver_units", hh["p"], hh["n"]) if e == "deliver"
+            ops.append(("call", hh["p"], hh["k"], hh["f"]) if e == "call" else ("deliver_units", hh["p"], hh["n"]) if e == "deliver"
                        else ("fire", hh["c"]) if e == "fire" else ("close", hh["p"]) if e == "close"
                        else ("drop",) if e == "drop" else ("notify", hh["p"]))
         t = run_rpc(b["cfg"], ops)
